@@ -12,7 +12,12 @@ for m in mutants/*.diff; do
 done
 for d in seeded/*/; do
   id=$(basename "$d" | cut -c1-3)
-  jobs+=("${d}patch.diff $id")
+  # a seed whose lines were touched by a later fix: commit carries the same change rebased onto the current tree
+  pf="${d}patch.diff"; [ -f "${d}patch.rebased.diff" ] && pf="${d}patch.rebased.diff"
+  # the check that catches it (meta.json "regress_check" when it is not the check of the seed's own property)
+  alt=$(python3 -c "import json,sys;print(json.load(open('${d}meta.json')).get('regress_check',''))" 2>/dev/null)
+  [ -n "$alt" ] && id="$alt"
+  jobs+=("$pf $id")
 done
-printf '%s\n' "${jobs[@]}" | xargs -P "$P" -L 1 bash -c 'r=$(tools/mutant.sh "$0" "$1" quick 2>&1 | head -1 | cut -c1-160); echo "$r" >> /var/tmp/verif-regress/results.txt; echo "$r"'
+printf '%s\n' "${jobs[@]}" | xargs -P "$P" -L 1 bash -c 'r=$(tools/mutant.sh "$0" "$1" quick 2>&1 | grep -m1 "^CAUGHT\|^MISSED\|^MUTANT" | cut -c1-160); [ -z "$r" ] && r="NO-VERDICT $1 $0"; echo "$r" >> /var/tmp/verif-regress/results.txt; echo "$r"'
 echo "== summary"; grep -c "^CAUGHT" "$out/results.txt"; grep -v "^CAUGHT" "$out/results.txt"
